@@ -276,6 +276,15 @@ impl Property for C14 {
             (Some("2020-02-30"), None, "day 30 in February"),
             (Some("12345"), None, "not a pattern"),
             (Some(""), None, "empty"),
+            (Some("foo-5mbar"), None, "garbage around a relative offset"),
+            (Some("abc+1d"), None, "garbage before a relative offset"),
+            (Some("+1dx"), None, "garbage after a relative offset"),
+            (Some("2020-01-02T03:04:05-5m"), None, "date-time followed by a relative offset"),
+            (Some("1971-02-05mst"), None, "date followed by an ambiguous zone that contains a relative offset"),
+            (None, Some("+-1d"), "two signs"),
+            (None, Some("+d"), "unit without count"),
+            (None, Some("+1x"), "unknown unit"),
+            (Some("2020-01-01"), Some("@@+1d"), "two @"),
         ])
         .prop_map(|(a, b, why)| Case::Reject { a: a.map(|s| s.to_string()), b: b.map(|s| s.to_string()), why: why.to_string() });
         // near misses built from the valid grammar: a valid date-time or bare date followed (attached or after a space)
